@@ -304,3 +304,14 @@ impl SenderCreditProducer {
             .map(ProbeLinkFlow::from_link_flow)
     }
 }
+
+/// The cut of an outgoing transfer into frame-sized transfers made by the session engine
+/// (`frames::amqp::split_transfer`).
+pub fn split_transfer(
+    transfer: Transfer,
+    payload: bytes::Bytes,
+    max_frame_body_size: usize,
+) -> Result<Vec<(Transfer, bytes::Bytes)>, String> {
+    crate::frames::amqp::split_transfer(transfer, payload, max_frame_body_size)
+        .map_err(|e| e.to_string())
+}
